@@ -31,7 +31,7 @@ from ..translate import c14 as tr
 PROPERTY = "C14"
 THEOREM_MODULE = "NemoVerif.Theorems.C14"
 RULE = ("program: 1-2 dialog flows (distinct start intents) + 0-2 subflows over user/bot/execute/set/if-else/while/"
-        "break/continue/do, nesting <= 4; history: produced by walking the program with the reference interpreter, "
+        "break/continue/do, nesting <= 4, plus dedicated nested-`do` chain programs (depth 2-3, inner call in last position); history: produced by walking the program with the reference interpreter, "
         "following it or leaving it (other intent, other bot step, failed action, hide_prev_turn, restart) at a random "
         "point, then a random tail; decisions compared on every prefix. non-trivial = the program has a conditional or "
         "loop or subflow call AND the history reaches at least 3 decisions; distinct = distinct (program, history).")
@@ -204,6 +204,80 @@ def g_program(rng, tier):
                 init.append({"set": ["r", {"lit": rng.choice([False, True, {"i": 0}])}]})
         body = [{"u": nm.user()}] + init + g_block(rng, nm, subs, depth, False)
         mains.append({"name": f"f{i}", "sub": False, "body": body})
+    return mains + flows
+
+
+def g_chain_program(rng, tier):
+    """Nested `do` chains of depth 2-3 (a subflow whose inner call is in last position, or is followed only by
+    non-blocking statements), with more statements in the callers after their own `do`: control has to
+    return through subflows that complete *while being resumed* in compute_next_state's resume loop."""
+    nm = Names()
+    depth = rng.choice([2, 2, 3])
+    subs = [f"s{i}" for i in range(depth)]
+    false_cond = {"bin": ["lt", {"lit": {"i": 1}}, {"lit": {"i": 0}}]}
+
+    def blocking():
+        r = rng.random()
+        if r < 0.45:
+            return {"b": nm.bot()}
+        if r < 0.8:
+            return {"u": nm.user()}
+        return {"x": [nm.act(), [], rng.choice([None, "r"])]}
+
+    def filler():
+        r = rng.random()
+        if r < 0.5:
+            return blocking()
+        return {"set": [rng.choice(VARS), {"lit": {"i": rng.choice([0, 1, 2])}}]}
+
+    flows = []
+    for i, sname in enumerate(subs):
+        body = [filler() for _ in range(rng.choice([0, 1, 1, 2]))]
+        if i == depth - 1:
+            if not any(("b" in x or "u" in x or "x" in x) for x in body) or rng.random() < 0.5:
+                body.append(blocking())
+            if rng.random() < 0.3:
+                body.append({"set": [rng.choice(VARS), {"lit": {"i": 1}}]})
+        else:
+            call = {"do": subs[i + 1]}
+            tail = rng.choice(["none", "none", "none", "set", "while_false", "if_false", "step"])
+            wrap = rng.random()
+            if wrap < 0.15:
+                call = {"if": [{"lit": True}, [call], []]}
+            elif wrap < 0.25:
+                call = {"if": [false_cond, [{"b": nm.bot()}], [call]]}
+            body.append(call)
+            if tail == "set":
+                body.append({"set": [rng.choice(VARS), {"lit": {"i": 2}}]})
+            elif tail == "while_false":
+                body.append({"while": [false_cond, [{"b": nm.bot()}]]})
+            elif tail == "if_false":
+                body.append({"if": [false_cond, [{"b": nm.bot()}], []]})
+            elif tail == "step":
+                body.append(blocking())
+        flows.append({"name": sname, "sub": True, "body": body})
+    main = [{"u": nm.user()}]
+    if rng.random() < 0.6:
+        main += [{"set": [v, {"lit": {"i": rng.choice([0, 1, 2])}}]} for v in VARS]
+    if rng.random() < 0.6:
+        main.append({"b": nm.bot()})
+    call = {"do": subs[0]}
+    after = [blocking() if rng.random() < 0.8 else {"set": [rng.choice(VARS), {"lit": {"i": 3}}]} for _ in range(rng.choice([1, 1, 2, 3]))]
+    if not any("b" in x or "x" in x for x in after):
+        after.append({"b": nm.bot()})
+    r = rng.random()
+    if r < 0.15:
+        v = rng.choice(VARS)
+        main += [{"set": [v, {"lit": {"i": 0}}]},
+                 {"while": [{"bin": ["lt", {"var": v}, {"lit": {"i": 2}}]}, [{"b": nm.bot()}, call, {"set": [v, {"bin": ["add", {"var": v}, {"lit": {"i": 1}}]}]}]]}]
+    elif r < 0.3:
+        main.append({"if": [{"lit": True}, [call], [{"b": nm.bot()}]]})
+    else:
+        main.append(call)
+    main += after
+    mains = [{"name": "f0", "sub": False, "body": main}]
+    if rng.random() < 0.3:
+        mains.append({"name": "f1", "sub": False, "body": [{"u": nm.user()}, {"b": nm.bot()}]})
     return mains + flows
 
 
@@ -656,10 +730,12 @@ def _bots(stmts):
 
 def gen_cases(rng, tier):
     n_prog = 170 if tier == "quick" else 4000
+    n_chain = 45 if tier == "quick" else 900
     cases = []
-    for i in range(n_prog):
-        flows = g_program(rng, tier)
-        for mode in ("follow", "leave", "leave", "leave"):
+    for i in range(n_prog + n_chain):
+        chain = i >= n_prog
+        flows = g_chain_program(rng, tier) if chain else g_program(rng, tier)
+        for mode in (("follow", "follow", "leave") if chain else ("follow", "leave", "leave", "leave")):
             if mode == "leave" and rng.random() < 0.15:
                 continue
             h = g_history(rng, flows, mode)
@@ -1134,9 +1210,14 @@ def signature(case, obs, msg):
                 return "flow-finished-on-start-event"
         except Exception:  # noqa
             pass
-        return None
+        return "corr-prefix"
+    # classes that are not known findings still get a class name, so that shrinking keeps the class
     if msg.startswith("REUSE"):
         return "reuse"
+    if msg.startswith("FOLLOW"):
+        return "follow"
+    if msg.startswith("generated structured source") or msg.startswith("parser produced"):
+        return "parse"
     return None
 
 
@@ -1189,15 +1270,16 @@ def shrink(case):
             yield dict(case, flows=fl[:fi] + [dict(f, body=nb)] + fl[fi + 1:])
 
 
-def _shrink_block(stmts, top=False):
+def _shrink_block(stmts, top=False, may_empty=False):
+    """smaller blocks; never an empty flow body / then-branch / loop body (that would not be valid source)"""
     for i, s in enumerate(stmts):
-        if not (top and i == 0):
+        if not (top and i == 0) and (len(stmts) > 1 or may_empty):
             yield stmts[:i] + stmts[i + 1:]
         if "if" in s:
             yield stmts[:i] + s["if"][1] + stmts[i + 1:]
             for nb in _shrink_block(s["if"][1]):
                 yield stmts[:i] + [{"if": [s["if"][0], nb, s["if"][2]]}] + stmts[i + 1:]
-            for nb in _shrink_block(s["if"][2]):
+            for nb in _shrink_block(s["if"][2], may_empty=True):
                 yield stmts[:i] + [{"if": [s["if"][0], s["if"][1], nb]}] + stmts[i + 1:]
         if "while" in s:
             for nb in _shrink_block(s["while"][1], top=True):
